@@ -22,8 +22,7 @@ INFO = {
             "result was compared with the eager parse; distinct = (shape, input, canonical state, event)",
     "bounds": {"quick": {"max_members": 3, "array_n": 3, "mutations": [0x00, 0x02, 0xff]}, "thorough": {"max_members": 4, "array_n": 4, "mutations": [0x00, 0x01, 0x02, 0x7f, 0xff]}},
     "trusted_base": ["the eager Struct/Array parse of the same members (differential oracle)"],
-    "assumptions": ["no claim when the eager parse rejects (laziness may defer validation)", "==, in, .get on lazy containers and negative indices are "
-                    "not in the property's accessor list", "members do not cross-reference lazily skipped siblings (documented restriction)"],
+    "assumptions": ["no claim when the eager parse rejects (laziness may defer validation)", "== and in on lazy containers are not in the property's accessor list", "members do not cross-reference lazily skipped siblings (documented restriction)"],
 }
 
 BYTE = G.BYTE
@@ -41,10 +40,11 @@ def kinds():
         "VarInt": (lambda: C.VarInt, [300, 1]),
         "CString": (lambda: C.CString("ascii"), ["hi", ""]),
         "Const": (lambda: C.Const(b"\x05\x06"), [None, None]),
+        "Default": (lambda: C.Default(C.Byte, 7), [2, 9]),
     }
 
 
-KIND_NAMES = ["Byte", "Short", "CtxBytes", "Prefixed", "PrefixedIncl", "PrefixedArray", "VarInt", "CString", "Const"]
+KIND_NAMES = ["Byte", "Short", "CtxBytes", "Prefixed", "PrefixedIncl", "PrefixedArray", "VarInt", "CString", "Const", "Default"]
 
 
 def member_lists(tier):
@@ -162,12 +162,13 @@ def struct_events(names):
         if n is not None:
             ev.append(("name", i))
             ev.append(("attr", i))
+            ev.append(("get", i))
     ev += [("keys",), ("values",), ("items",), ("iter",), ("len",), ("build",)]
     return ev
 
 
 def array_events(n):
-    ev = [("index", i) for i in range(n)]
+    ev = [("index", i) for i in range(n)] + [("index", -1), ("index", -n)]
     for a in (None, 0, 1, n - 1, n, n + 1):
         for b in (None, 0, 1, n, n + 1):
             for st in (None, 2, -1):
@@ -190,6 +191,8 @@ def apply_event(lz, names, ev, outer_lazy, outer_obj):
         return T.norm(lz[names[ev[1]]])
     if k == "attr":
         return T.norm(getattr(lz, names[ev[1]]))
+    if k == "get":
+        return T.norm(lz.get(names[ev[1]]))
     if k == "keys":
         return list(lz.keys())
     if k == "values":
@@ -218,7 +221,7 @@ def eager_answer(ev, ev_names, eager_lz, eager_bytes):
                 return "anon"
             return eager_lz[names[ev[1]]]
         return eager_lz[ev[1]]
-    if k in ("name", "attr"):
+    if k in ("name", "attr", "get"):
         return eager_lz[names[ev[1]]]
     if k == "keys" or (k == "iter" and names is not None):
         return [n for n in names if n is not None]
